@@ -7,14 +7,23 @@
      expect l k  what k consecutive Next calls answer for a pipeline denoting l: the first k items
                  of l, then the end - again and again
      dom p       chunk sizes are >= 1 (the only parameter restriction that is needed)
-     clean p     dom p, no scripted source fails, no callback fails. *)
+     clean p     dom p, no scripted source fails, no callback fails.
+     no_panics p no callback of p panics (cb_panics fl = false for every [failing] record of
+                 Filter/Map/While) and no scripted source has an EvPanic event (boolean).
+                 Iterator callbacks cannot return errors, so a [failing] record that does not
+                 panic is ignored by the iterator model; one that panics makes the k-th
+                 invocation panic.  Every iterator statement about results therefore carries
+                 the hypothesis [no_panics p = true] (for a single callback:
+                 [cb_panics fl = false]); clean p implies it (Final.clean_no_panics).  The
+                 statements that compare runs (prefix determinacy, composition of pull
+                 counts) hold with panicking callbacks too and carry no such hypothesis. *)
 From Juniper Require Import Common.Base Iter.Syntax Iter.Config Iter.ModelBase Iter.IterModel
   Iter.StreamModel Iter.Spec Iter.IterProofs Iter.StreamProofs Iter.Reducers Iter.SReducers
   Iter.XSlices Iter.Lazy Iter.Final.
 
 (* ---- every pipeline yields its denotation; the end is sticky ---- *)
 Theorem C07_iter_den : forall cfg p lives,
-  iter_supported p = true -> dom p ->
+  iter_supported p = true -> dom p -> no_panics p = true ->
   results (run_iter_cfg cfg p (Steps (map CNext lives))) = expect (den p) (length lives).
 Proof. exact iter_steps_den. Qed.
 
@@ -30,7 +39,8 @@ Theorem C07_agree_iter_stream : forall cfg1 cfg2 p k,
 Proof. exact iter_stream_agree. Qed.
 
 Theorem C07_sticky_iter : forall cfg p lives i j,
-  iter_supported p = true -> dom p -> (i <= j)%nat -> (j < length lives)%nat ->
+  iter_supported p = true -> dom p -> no_panics p = true ->
+  (i <= j)%nat -> (j < length lives)%nat ->
   let rs := results (run_iter_cfg cfg p (Steps (map CNext lives))) in
   nth_error rs i = Some REnd -> nth_error rs j = Some REnd.
 Proof. exact iter_sticky. Qed.
@@ -42,22 +52,27 @@ Theorem C07_sticky_stream : forall cfg p k i j,
 Proof. exact stream_sticky. Qed.
 
 (* ---- reducers, iterators ---- *)
-Theorem C07_collect_iter : forall cfg p b, iter_supported_z p = true -> dom_z p ->
+Theorem C07_collect_iter : forall cfg p b,
+  iter_supported_z p = true -> dom_z p -> no_panics_z p = true ->
   results (run_iter_cfg cfg (inl p) (Reduce RCollect b)) = [RVal (den_z p)].
 Proof. exact iter_collect_den. Qed.
 
-Theorem C07_reduce_iter : forall cfg p b, iter_supported_z p = true -> dom_z p ->
-  results (run_iter_cfg cfg (inl p) (Reduce RSum b)) = [RVal [fold_left Z.add (den_z p) 0]].
+Theorem C07_reduce_iter : forall cfg p b,
+  iter_supported_z p = true -> dom_z p -> no_panics_z p = true ->
+  forall fl, cb_panics fl = false ->
+  results (run_iter_cfg cfg (inl p) (Reduce (RSum fl) b)) = [RVal [fold_left Z.add (den_z p) 0]].
 Proof. exact iter_sum_den. Qed.
 
-Theorem C07_one_iter : forall cfg p b, iter_supported_z p = true -> dom_z p ->
+Theorem C07_one_iter : forall cfg p b,
+  iter_supported_z p = true -> dom_z p -> no_panics_z p = true ->
   results (run_iter_cfg cfg (inl p) (Reduce ROne b))
   = [match den_z p with [x] => RVal [x] | _ => REnd end].
 Proof. exact iter_one_den. Qed.
 
 (* Last: the last n items for EVERY n (n <= 0: none) in the repaired configuration - which is
    the configuration of /repo now -, and for n >= 1 in any configuration *)
-Theorem C07_last_iter : forall cfg p b, iter_supported_z p = true -> dom_z p ->
+Theorem C07_last_iter : forall cfg p b,
+  iter_supported_z p = true -> dom_z p -> no_panics_z p = true ->
   forall n, (cfg_last_guard cfg = true \/ 1 <= n) ->
   results (run_iter_cfg cfg (inl p) (Reduce (RLast n) b))
   = [RVal (lastn (Z.to_nat n) (den_z p))].
@@ -75,14 +90,16 @@ Proof. exact iter_last_n0_refuted. Qed.
 
 (* Equal(p, others...) is true exactly when all pipelines denote the same sequence *)
 Theorem C07_equal_den : forall cfg p b,
-  iter_supported_z p = true -> dom_z p ->
+  iter_supported_z p = true -> dom_z p -> no_panics_z p = true ->
   forall others, forallb iter_supported_z others = true -> Forall dom_z others ->
+  forallb no_panics_z others = true ->
   exists e : bool,
     results (run_iter_cfg cfg (inl p) (Reduce (REqual others) b)) = [RVal [if e then 1 else 0]] /\
     (e = true <-> Forall (fun q => den_z q = den_z p) others).
 Proof. exact iter_equal_den. Qed.
 
-Theorem C07_equal_self : forall cfg p b, iter_supported_z p = true -> dom_z p ->
+Theorem C07_equal_self : forall cfg p b,
+  iter_supported_z p = true -> dom_z p -> no_panics_z p = true ->
   results (run_iter_cfg cfg (inl p) (Reduce REqualSelf b)) = [RVal [1]].
 Proof. exact iter_equal_self. Qed.
 
@@ -91,8 +108,10 @@ Theorem C07_collect_stream : forall cfg p, okz false p ->
   results (run_stream_cfg cfg (inl p) (Reduce RCollect true)) = [RVal (den_z p)].
 Proof. exact stream_collect_den. Qed.
 
-Theorem C07_reduce_stream : forall cfg p, okz false p ->
-  results (run_stream_cfg cfg (inl p) (Reduce RSum true)) = [RVal [fold_left Z.add (den_z p) 0]].
+(* Reduce with a reduction function that never fails *)
+Theorem C07_reduce_stream : forall cfg p, okz false p -> forall fl, fail_at fl = None ->
+  results (run_stream_cfg cfg (inl p) (Reduce (RSum fl) true))
+  = [RVal [fold_left Z.add (den_z p) 0]].
 Proof. exact stream_sum_den. Qed.
 
 Theorem C07_one_stream : forall cfg p, okz false p ->
@@ -141,6 +160,7 @@ Proof. exact no_pull_before_next_stream. Qed.
 (* Filter over a Slice: after k successful Next calls the source has been asked exactly
    (index of the k-th kept item + 1) times *)
 Theorem C07_lazy_filter : forall cfg id keep fl l k,
+  cb_panics fl = false ->
   (k <= length (filter (pred_eval keep) l))%nat ->
   let run := run_iter_cfg cfg (inl (ZFilter keep fl (ZSrc id (SSlice l))))
                           (Steps (map CNext (repeat true k))) in
@@ -149,8 +169,9 @@ Theorem C07_lazy_filter : forall cfg id keep fl l k,
 Proof. exact filter_pulls_exact. Qed.
 
 (* per call, over the instrumented Slice source [slice_nx id]: exactly the calls listed *)
-Theorem C07_lazy_filter_call : forall id keep n a o a' ev,
-  (length a < n)%nat -> ifilter (slice_nx id) n keep a = (o, a', ev) ->
+Theorem C07_lazy_filter_call : forall id keep fl, cb_panics fl = false ->
+  forall n calls a o calls' a' ev,
+  (length a < n)%nat -> ifilter (slice_nx id) n keep fl calls a = (o, (calls', a'), ev) ->
   match o with
   | Item x => exists pre, a = pre ++ x :: a' /\ forallb (fun y => negb (pred_eval keep y)) pre = true
                           /\ pred_eval keep x = true /\ ev = repeat (SevNext id) (length pre + 1)
@@ -167,12 +188,13 @@ Theorem C07_lazy_first_call : forall id x a o x' a' ev,
        match a with [] => o = End | y :: t => o = Item y /\ a' = t end.
 Proof. exact ifirst_lazy. Qed.
 
-Theorem C07_lazy_map_call : forall id f a o a' ev,
-  imap (slice_nx id) f a = (o, a', ev) -> ev = repeat (SevNext id) 1.
+(* Map, While: also when the callback panics *)
+Theorem C07_lazy_map_call : forall id f fl calls a o calls' a' ev,
+  imap (slice_nx id) f fl calls a = (o, (calls', a'), ev) -> ev = repeat (SevNext id) 1.
 Proof. exact imap_lazy. Qed.
 
-Theorem C07_lazy_while_call : forall id f done a o done' a' ev,
-  iwhile (slice_nx id) f done a = (o, (done', a'), ev) ->
+Theorem C07_lazy_while_call : forall id f fl calls done a o calls' done' a' ev,
+  iwhile (slice_nx id) f fl calls done a = (o, (calls', done', a'), ev) ->
   ev = if done then [] else repeat (SevNext id) 1.
 Proof. exact iwhile_lazy. Qed.
 
@@ -220,6 +242,25 @@ Example C07_demo_run :
   results (run_iter (inl demo) (Steps (map CNext (repeat true 9))))
   = map (fun x => RItem (IZ x)) [1; 3; 5; 7; 7; 8; 4] ++ [REnd; REnd].
 Proof. exact demo_iter_run. Qed.
+
+(* a callback that panics: the consumer recovers, the item Filter had pulled is lost, the run
+   goes on.  The hypothesis no_panics of C07_iter_den cannot be dropped. *)
+Example C07_iter_panicking_callback :
+  let p := inl (ZFilter PrTrue (mkFailing (Some 1%nat) 0 true) (ZSrc 0 (SSlice [1; 2; 3]))) in
+  iter_supported p = true /\ dom p /\ no_panics p = false /\
+  results (run_iter p (Steps (map CNext [true; true; true; true])))
+  = [RItem (IZ 1); RPanic; RItem (IZ 3); REnd] /\
+  results (run_iter p (Steps (map CNext [true; true; true; true]))) <> expect (den p) 4.
+Proof.
+  split; [reflexivity|]. split; [exact I|]. split; [reflexivity|].
+  split; [vm_compute; reflexivity|vm_compute; discriminate].
+Qed.
+(* a [failing] record that does not panic is ignored by iterators *)
+Example C07_iter_error_record_ignored :
+  let p := inl (ZMap (FnAffine 1 0) (mkFailing (Some 0%nat) 5 false) (ZSrc 0 (SSlice [1; 2]))) in
+  no_panics p = true /\
+  results (run_iter p (Steps (map CNext [true; true; true]))) = [RItem (IZ 1); RItem (IZ 2); REnd].
+Proof. split; [reflexivity|vm_compute; reflexivity]. Qed.
 
 Print Assumptions C07_iter_den.
 Print Assumptions C07_stream_den.
@@ -345,6 +386,7 @@ Theorem C07_lazy_peek : forall id cfg l k,
 Proof. exact peek_pulls_exact. Qed.
 
 Theorem C07_lazy_map : forall id cfg g fl l k,
+  cb_panics fl = false ->
   let run := run_iter_cfg cfg (inl (ZMap g fl (ZSrc id (SSlice l)))) (ksteps k) in
   count_next id (ro_log run) = k /\ results run = expect (map IZ (map (fn_eval g) l)) k.
 Proof. exact map_pulls_exact. Qed.
@@ -357,6 +399,7 @@ Proof. exact first_pulls_exact. Qed.
 
 (* while_pulls f l k = min k (t+1) if the item at position t = |takewhile f l| fails f, else k *)
 Theorem C07_lazy_while : forall id f cfg fl l k,
+  cb_panics fl = false ->
   let run := run_iter_cfg cfg (inl (ZWhile f fl (ZSrc id (SSlice l)))) (ksteps k) in
   count_next id (ro_log run) = while_pulls f l k /\
   results run = expect (map IZ (takewhile (pred_eval f) l)) k.
@@ -364,7 +407,7 @@ Proof. exact while_pulls_exact. Qed.
 
 (* filter_pos / compact_pos: position of the k-th item kept / yielded (+1); once the items have
    run out: all of them, and the end once per call *)
-Theorem C07_lazy_filter_all : forall id keep cfg fl l k,
+Theorem C07_lazy_filter_all : forall id keep fl, cb_panics fl = false -> forall cfg l k,
   let run := run_iter_cfg cfg (inl (ZFilter keep fl (ZSrc id (SSlice l)))) (ksteps k) in
   count_next id (ro_log run) = filter_pos keep l k /\
   results run = expect (map IZ (filter (pred_eval keep) l)) k.
@@ -429,6 +472,7 @@ Theorem C07_lazy_needed_peek : forall cfg id l k,
 Proof. exact peek_needed. Qed.
 
 Theorem C07_lazy_needed_map : forall cfg id g fl l k,
+  cb_panics fl = false ->
   (1 <= k <= length l + 1)%nat ->
   needed cfg (fun l => inl (ZMap g fl (ZSrc id (SSlice l)))) id l k.
 Proof. exact map_needed. Qed.
@@ -439,12 +483,14 @@ Theorem C07_lazy_needed_first : forall cfg id n l k,
 Proof. exact first_needed. Qed.
 
 Theorem C07_lazy_needed_filter : forall cfg id keep fl l k,
+  cb_panics fl = false ->
   (exists y, pred_eval keep y = true) ->
   (1 <= k <= length (filter (pred_eval keep) l) + 1)%nat ->
   needed cfg (fun l => inl (ZFilter keep fl (ZSrc id (SSlice l)))) id l k.
 Proof. exact filter_needed. Qed.
 
 Theorem C07_lazy_needed_while : forall cfg id f fl l k,
+  cb_panics fl = false ->
   (exists y, pred_eval f y = true) ->
   (1 <= k <= length (takewhile (pred_eval f) l) + 1)%nat ->
   needed cfg (fun l => inl (ZWhile f fl (ZSrc id (SSlice l)))) id l k.
@@ -463,18 +509,19 @@ Theorem C07_lazy_needed_chunk : forall cfg id n, 1 <= n -> forall l k,
   needed cfg (fun l => inr (LChunk n (ZSrc id (SSlice l)))) id l k.
 Proof. exact chunk_needed. Qed.
 
-(* ---- laziness composes: over an ARBITRARY inner pipeline q a combinator C (plug c: WithPeek,
-   Compact, Filter, First, Map, While, Chunk) makes q do exactly m stand-alone Next calls,
-   m = the number of calls C makes on a Slice holding q's items (the formulas above) ---- *)
+(* ---- laziness composes: over an ARBITRARY inner pipeline q (in which nothing panics) a
+   combinator C (plug c: WithPeek, Compact, Filter, First, Map, While, Chunk - whether or not
+   C's own callback panics) makes q do exactly m stand-alone Next calls, m = the number of calls
+   C makes on a Slice holding q's items (the formulas above) ---- *)
 Theorem C07_lazy_compose : forall cfg c q k,
-  iter_supported_z q = true -> dom_z q ->
+  iter_supported_z q = true -> dom_z q -> no_panics_z q = true ->
   let m := pulls_in (run_iter_cfg cfg (plug c (ZSrc 0 (SSlice (den_z q)))) (ksteps k)) 0 in
   ro_log (run_iter_cfg cfg (plug c q) (ksteps k))
   = ro_log (run_iter_cfg cfg (inl q) (ksteps m)).
 Proof. exact compose_pulls. Qed.
 
 Theorem C07_lazy_compose_counts : forall cfg c q k id,
-  iter_supported_z q = true -> dom_z q ->
+  iter_supported_z q = true -> dom_z q -> no_panics_z q = true ->
   let m := pulls_in (run_iter_cfg cfg (plug c (ZSrc 0 (SSlice (den_z q)))) (ksteps k)) 0 in
   pulls_in (run_iter_cfg cfg (plug c q) (ksteps k)) id
   = pulls_in (run_iter_cfg cfg (inl q) (ksteps m)) id.
@@ -482,14 +529,15 @@ Proof. exact compose_pull_counts. Qed.
 
 (* e.g. C07_lazy_filter for an arbitrary inner pipeline *)
 Theorem C07_lazy_filter_over_any : forall cfg keep fl q k id,
-  iter_supported_z q = true -> dom_z q ->
+  iter_supported_z q = true -> dom_z q -> no_panics_z q = true -> cb_panics fl = false ->
   pulls_in (run_iter_cfg cfg (inl (ZFilter keep fl q)) (ksteps k)) id
   = pulls_in (run_iter_cfg cfg (inl q) (ksteps (filter_pos keep (den_z q) k))) id.
 Proof. exact filter_over_any. Qed.
 
 (* and the m-th call of q.Next was needed by C whenever it is needed over a Slice *)
 Theorem C07_lazy_compose_needed : forall cfg c q k,
-  iter_supported_z q = true -> dom_z q -> ctx_dom c ->
+  iter_supported_z q = true -> dom_z q -> no_panics_z q = true -> ctx_dom c ->
+  ctx_nopanic c = true ->
   needed cfg (fun l => plug c (ZSrc 0 (SSlice l))) 0 (den_z q) k ->
   let m := pulls_in (run_iter_cfg cfg (plug c (ZSrc 0 (SSlice (den_z q)))) (ksteps k)) 0 in
   ro_log (run_iter_cfg cfg (plug c q) (ksteps k)) = ro_log (run_iter_cfg cfg (inl q) (ksteps m)) /\
